@@ -113,7 +113,7 @@ class FileModel:
         m = self.clone()
         rcs = getattr(m, 'op_' + op['op'])(op)
         if not isinstance(rcs, (set, frozenset)): rcs = {rcs}
-        return rcs, (m if (0 in rcs or op['op'] in ('close', 'abort')) else None)   # close/abort release the file whatever they return
+        return rcs, (m if (0 in rcs or op['op'] in ('close', 'abort') or (op.get('erange') and D.NC_ERANGE in rcs)) else None)   # close/abort release the file whatever they return; NC_ERANGE is a completed call
 
     # ---- mode changes
     def op_enddef(self, o):
@@ -260,7 +260,9 @@ class FileModel:
         else:
             if not self.indef(): return D.NC_ENOTINDEFINE
             lst.append([name, xt, vals, att_xsz(xt, len(vals))])
-        return 0
+        # o['erange']: o['vals'] are the values the attribute holds afterwards (fill in place of the unrepresentable ones),
+        # the call itself reports NC_ERANGE and is otherwise complete
+        return D.NC_ERANGE if o.get('erange') else 0
 
     def op_del_att(self, o):
         if self.rdonly: return D.NC_EPERM
